@@ -68,7 +68,7 @@ func (s *scen) name() string {
 	if o.SlowSourceMs > 0 {
 		return fmt.Sprintf("seeds=%d w%d a%d slow-source=%dms", s.Seeds, o.Workers, o.MaxConcurrentAssets, o.SlowSourceMs)
 	}
-	return fmt.Sprintf("seeds=%d w%d a%d limiter=%v proxy=%v async=%v seencheck=%s paused=%v%s", s.Seeds, o.Workers, o.MaxConcurrentAssets, o.RateLimit, o.Proxy, o.AsyncWARC, seenName(o), s.Paused, map[bool]string{true: " disk-full", false: ""}[s.DiskFull]) + map[bool]string{true: " broken-bodies", false: ""}[s.Broken]
+	return fmt.Sprintf("seeds=%d w%d a%d limiter=%v proxy=%v async=%v seencheck=%s paused=%v%s", s.Seeds, o.Workers, o.MaxConcurrentAssets, o.RateLimit, o.Proxy, o.AsyncWARC, seenName(o), s.Paused, map[bool]string{true: " disk-full", false: ""}[s.DiskFull]) + map[bool]string{true: " broken-bodies", false: ""}[s.Broken] + map[bool]string{true: " slow-warc-writers", false: ""}[o.WriteMs > 0]
 }
 
 func seenName(o world.Options) string {
@@ -355,6 +355,9 @@ func scenarios(tier string) []scen {
 		{Workers: 1, MaxConcurrentAssets: 1, Proxy: true, AsyncWARC: true, RateLimit: true},
 		{Workers: 1, MaxConcurrentAssets: 1, NoSeencheck: true},
 		{Workers: 1, MaxConcurrentAssets: 1, LocalSeencheck: true},
+		// asynchronous WARC writing with writers that are behind (2.5 s per record): the stop has to wait for the queue
+		{Workers: 1, MaxConcurrentAssets: 1, AsyncWARC: true, WriteMs: 2500},
+		{Workers: 1, MaxConcurrentAssets: 1, Proxy: true, AsyncWARC: true, WriteMs: 2500},
 	} {
 		p := P
 		if o.LocalSeencheck {
